@@ -106,6 +106,7 @@ impl BlockBuilder {
         }
 
         for (_, rule) in source_result.rules.into_iter() {
+            super::rule::validate_parsed_rule(&rule)?;
             let mut rule: Rule = rule.into();
             for (name, value) in &params {
                 let res = match rule.set(name, value) {
@@ -136,6 +137,9 @@ impl BlockBuilder {
         }
 
         for (_, check) in source_result.checks.into_iter() {
+            for query in &check.queries {
+                super::rule::validate_parsed_rule(query)?;
+            }
             let mut check: Check = check.into();
             for (name, value) in &params {
                 let res = match check.set(name, value) {
